@@ -647,4 +647,36 @@ def pyDictSet {T : Type} (d : List (String × T)) (key : String) (v : T) : List 
 /-- `str(i)` of a non-negative integer. -/
 def pyStr (i : Nat) : String := toString i
 
+
+/-! ### round 6: the aim-weights default of the convenience constructors, element-wise post-processing -/
+
+/-- `x is None`. -/
+def pyIsNone (x : Option α) : Bool := x.isNone
+
+/-- `callable(aim_weights)` on what a caller may pass (`None` is not callable). -/
+def pyAimCallable : Option (AimArg P K) → Bool
+  | some (.callable _) => true
+  | _ => false
+
+/-- `isinstance(aim_weights, np.ndarray)`. -/
+def pyAimIsArray : Option (AimArg P K) → Bool
+  | some (.array _) => true
+  | _ => false
+
+/-- The argument as `MolGrid.__init__` meets it when no default replaced it: `None` is neither callable
+nor an array (`TypeError` there). -/
+def pyAimKeep : Option (AimArg P K) → AimArg P K
+  | some a => a
+  | none => .other
+
+/-- `np.clip(x, lo, hi)` on a 1-D array. -/
+def npClip [Max K] [Min K] (xs : List K) (lo hi : K) : List K := xs.map fun x => min (max x lo) hi
+
+/-- `np.maximum(x, c)` / `np.minimum(x, c)` on a 1-D array and a scalar. -/
+def npMaximum [Max K] (xs : List K) (c : K) : List K := xs.map fun x => max x c
+def npMinimum [Min K] (xs : List K) (c : K) : List K := xs.map fun x => min x c
+
+/-- `np.ones(n)` (a float shape raises `TypeError`, as for `np.zeros`). -/
+def npOnes [NatCast K] (n : NpNum) : Py (List K) := npZeros n ((1 : Nat) : K)
+
 end GridVerif.MolGrid
